@@ -1,4 +1,10 @@
-"""C09 — combined over the wire-format family groups (parts built separately: c09_<group>)."""
+"""C09 — combined over family parts (built separately: c09_theta, c09_hll, c09_cpc, c09_quant, c09_count, c09_misc)."""
 from ..combine import combined_spec
 
-SPEC = combined_spec("C09", ["c09_theta", "c09_hll", "c09_cpc", "c09_quant", "c09_count", "c09_misc"], "C09")
+SPEC = combined_spec("C09", ['c09_theta', 'c09_hll', 'c09_cpc', 'c09_quant', 'c09_count', 'c09_misc'], "C09")
+CLAIM_TEXT = ('Serialization round trip for all 16 serializable types in six family groups: kernel-checked `decode (encode s ++ tail) = some (s, tail)` (the reader inverts the writer and consumes exactly the image), `|encode s| = serializedSize s`, re-encoding identity / stated table-order freedom, published maxima where the API has one, the translated bit-packing routines of all 63 widths; the C++ writers/readers are tied per image (bytes = stream, advertised size, header h, restore through bytes and stream, re-serialize, continue-after-restore) to the Lean specification reader/writer. '
+              + "Parts: " + " ".join(SPEC.claim_texts))
+CLAIM = dict(text=CLAIM_TEXT,
+             note="Partial by nature: theorems are about the specification codec built from /repo's constants on every run; C++ is tied by sampled differential runs under sanitizers. Estimators after restore are compared C++ vs C++.",
+             technique='Lean 4 reader-combinator proofs (round trip, size) + kernel-evaluated translated code (bit packing) + two-phase differential tie on images',
+             design='DESIGN.md §3 C09')
